@@ -8,6 +8,7 @@ from concurrent.futures import ThreadPoolExecutor
 import vlib
 import mon_integer
 import mon_engine
+import mon_more
 
 TRUSTED_BASE = [
     "Coq 8.16.1 kernel (coqc, full .vo build; vm_compute used in witness lemmas; no native_compute)",
@@ -69,6 +70,33 @@ def engine_spec(prop, keys, quick, thorough, assumptions=()):
     return Spec(prop, [Family("engine", quick, thorough)], mon_engine.monitor_for(prop), ENGINE_RULE, keys, assumptions)
 
 
+def merged(*parts):
+    """parts: (filename-prefix tuple, monitor); each monitor sees only the traces of its families"""
+    def f(paths):
+        viol, stats = [], {"paths": {}, "by_verb": {}, "samples": []}
+        for prefixes, mon in parts:
+            sel = [p for p in paths if os.path.basename(p).startswith(prefixes)]
+            if not sel:
+                continue
+            v, st = mon(sel)
+            viol.extend(v)
+            for k, x in st.items():
+                if isinstance(x, dict):
+                    d = stats.setdefault(k, {})
+                    for kk, vv in x.items():
+                        d[kk] = d.get(kk, 0) + vv if isinstance(vv, int) else vv
+                elif isinstance(x, list):
+                    stats.setdefault(k, []).extend(x)
+                elif isinstance(x, int):
+                    stats[k] = stats.get(k, 0) + x
+        return viol, stats
+    return f
+
+
+def fam(name, q, t):
+    return Family(name, [[str(q)]], [[str(t)]] * 4)
+
+
 SPECS = {
     "C19": Spec(
         "C19",
@@ -99,8 +127,40 @@ SPECS = {
                        shards(8, 25, prof="caps"), shards(16, 150, prof="caps")),
     "C15": engine_spec("C15", r"(v\d+\.(q|b|spot|s0|s1|fluct|snaps)|p\d+\.\d+(\.size)?$|e\.plr)",
                        shards(8, 25, prof="fluct"), shards(16, 150, prof="fluct")),
-    "C14": engine_spec("C14", r"(e\.pause|v\d+\.open|if\.)", shards(8, 25, prof="pause"), shards(16, 150, prof="pause")),
-    "C08": engine_spec("C08", r"(e\.(tmpswap|sentfunds|tmpliq)|bal\.|p\d+\.|v\d+\.(q|b|total))", shards(8, 25), shards(16, 150)),
+    "C14": Spec("C14", [Family("engine", shards(4, 25, prof="pause"), shards(12, 150, prof="pause")), fam("c14", 6, 30)],
+                merged((("engine", "c14"), mon_engine.monitor_for("C14"))),
+                ENGINE_RULE + "; plus the exhaustive matrix paused x open x registered x every engine operation and shutdown from every subset of already-closed vAMMs (1-3 registered)",
+                r"(e\.pause|v\d+\.open|if\.)"),
+    "C08": Spec("C08", [Family("engine", shards(4, 25), shards(12, 150)), fam("faults", 10, 60)],
+                merged((("engine", "faults"), mon_engine.monitor_for("C08"))),
+                ENGINE_RULE + "; plus fault injection: for every engine operation of a history the operation is first attempted with a failure injected at sub-message 0, 1, 2, ... of its "
+                "message tree (vAMM swap, token transfers, insurance-fund withdrawal and its inner transfer) until the index passes the tree; raw storage of every contract and all balances "
+                "are fingerprinted before/after every failed call",
+                r"(result|e\.(tmpswap|sentfunds|tmpliq)|bal\.|p\d+\.|v\d+\.(q|b|total))"),
+    "C09": Spec("C09", [fam("auth", 4, 24)], mon_more.mon("C09"),
+                "exhaustive matrix: 24 privileged messages of the five contracts x 9 sender kinds (owner, new owner, stranger, trader, engine, insurance fund, vAMM, fee pool, liquidator) "
+                "x before/after every role was transferred, on generated deployments (real and mock feed); refusal must leave the storage/balance fingerprint unchanged",
+                r"(result|e\.(owner|pauser|pause|wl|plr)|v\d+\.(owner|open|holdcap)|if\.|fp\.|feed\.)"),
+    "C13": Spec("C13", [fam("twin", 16, 120)], mon_more.c13,
+                "twin deployments (cw20 / native, equal decimals and parameters, with and without fees) driven through the same history; each native call attaches exactly what the cw20 "
+                "deployment pulls from the caller; compared step by step: ok/err, every position, vAMM state, every balance",
+                r"(result|bal\.|p\d+\.|v\d+\.(q|b|total)|e\.(oi|baddebt|sentfunds))"),
+    "C01": Spec("C01", [fam("vamm", 30, 200), Family("engine", shards(3, 25), shards(8, 150))],
+                merged((("vamm", "engine"), mon_more.mon("C01"))),
+                "vAMM-level histories (a plain account plays the engine): reserves from one unit to 2^100, amounts built to leave division remainders, both swap kinds and directions, "
+                "interleaved with funding, config and block changes; plus engine-driven histories; non-trivial = a swap that moved the reserves",
+                r"(result|v\d+\.(q|b|total))"),
+    "C17": Spec("C17", [fam("vamm", 30, 200), Family("engine", shards(3, 25), shards(8, 150))],
+                merged((("vamm", "engine"), mon_more.mon("C17"))),
+                "vAMM-level swaps preceded by the corresponding amount query, limit tuner at quoted amount -1 / = / +1, both kinds and directions; engine OpenPosition/ClosePosition with "
+                "limits at the quoted amount +-1",
+                r"(result|v\d+\.(q|b|total))"),
+    "C18": Spec("C18", [fam("vamm", 30, 200), fam("feed", 40, 300)],
+                merged((("vamm",), mon_more.mon("C18")), (("feed",), mon_more.c18_feed)),
+                "vAMM histories with several trades per block and gaps between blocks, TWAP over 15 min and the configured interval checked against the snapshot list reconstructed "
+                "from observations; price-feed histories (non-decreasing, non-future timestamps; malformed stream compared model-vs-impl only) with latest / n-rounds-back (n around the "
+                "number of rounds) / TWAP over 7 intervals",
+                r"(result|v\d+\.(twap|twap15|s0|s1|snaps|spot)|feed\.|prev\.|twap\.)"),
 }
 
 
